@@ -14,7 +14,9 @@ META = dict(
          "{accessmode='r' at creation, default reopen, assigning accessmode='r', after random mode "
          "switches} x state {empty first axis, non-empty, ragged with empty values, with/without "
          "metadata}: in 'r' the call must raise and every file stay byte-identical; after switching "
-         "to 'r+' the same call must succeed (when it is valid in that state); non-trivial = all",
+         "to 'r+' the same call must succeed (when it is valid in that state); plus read-only mode "
+         "assigned while the array is open (context / running generator), nested open requests, a "
+         "metadata object whose own mode was changed, copies (default and accessmode='r'); non-trivial = all",
     trusted_base=[
         "Coq 8.16.1 kernel (coqc), vm_compute for evaluating the model on cases",
         "hand-written models ArrayModel.v / RaggedModel.v (mode gates of every mutator as coded; "
